@@ -417,27 +417,25 @@ Qed.
 Theorem encoding_invariant c d : v_data_json c d = v_data_yaml c d /\ v_file_other_json c d = v_file_yaml c d.
 Proof. split; reflexivity. Qed.
 
-(* ... which failed before fix 6c1c860 (shown for the no-op schema, so that the witness does not depend on the
-   shipped schema files) *)
+(* ... which failed before fix 6c1c860 (shown for the schema that accepts everything, so that the witness does not depend
+   on the shipped schema files) *)
 Definition odd_annotations_doc : doc :=
   DObj [("cdiVersion", DStr "1.0.0"); ("kind", DStr "vendor.com/class"); ("annotations", DObj [("a b", DStr "v")]);
         ("devices", DArr [DObj [("name", DStr "d"); ("containerEdits", DObj [("env", DArr [DStr "A=b"])])]])].
 Theorem encoding_invariant_pinned_refuted : exists c d, v_data_json_pinned c d <> v_data_yaml c d.
-Proof. exists CfgNop, odd_annotations_doc. vm_compute. discriminate. Qed.
+Proof. exists (CfgSchema (SBool true)), odd_annotations_doc. vm_compute. discriminate. Qed.
 
-(* the no-op schema: the funnel accepts everything; ValidateData still runs the content check *)
-Theorem nop_accepts d :
-  top_decodable d = true -> annotations_wf d -> Forall (fun ep => ep CfgNop d = true) entry_points.
+(* the no-op schema accepts whatever can be decoded, at every entry point *)
+Theorem nop_accepts d : top_decodable d = true -> Forall (fun ep => ep CfgNop d = true) entry_points.
 Proof.
-  intros T C. unfold entry_points, v_type, v_reader, v_file_json, v_data_json, v_data_yaml, v_file_yaml, v_file_other_json.
-  repeat constructor; unfold run_data; rewrite ?T, ?C; reflexivity.
+  intro T. unfold entry_points, v_type, v_reader, v_file_json, v_data_json, v_data_yaml, v_file_yaml, v_file_other_json.
+  repeat constructor; unfold run_data; rewrite ?T; reflexivity.
 Qed.
 Theorem nop_funnel_accepts d : v_type CfgNop d = true /\ v_reader CfgNop d = true /\ v_file_json CfgNop d = true.
 Proof. repeat split. Qed.
-Theorem nop_data_is_content_check d : top_decodable d = true -> v_data_json CfgNop d = contents_ok d.
-Proof. intro T. unfold v_data_json, run_data. rewrite T. reflexivity. Qed.
-(* "the none schema never rejects a parseable document" read without the proviso on annotations is false of the code *)
-Theorem nop_accepts_unconditionally_refuted : exists d, top_decodable d = true /\ v_data_json CfgNop d = false.
+(* before fix 748fe15 the no-op schema still ran the annotation content check in ValidateData / ValidateFile(x.yaml):
+   "the none schema never rejects a parseable document" was false of that code *)
+Theorem nop_accepts_pinned_refuted : exists d, top_decodable d = true /\ run_data_pinned_nop CfgNop d = false.
 Proof. exists odd_annotations_doc. vm_compute. split; reflexivity. Qed.
 
 (* a nil schema accepts whatever can be decoded *)
